@@ -119,6 +119,13 @@ def check_case(model: SrcModel, parts4) -> List[Tuple[str, str, str]]:
             if "raise" not in direct and got_ != want_:
                 problems.append(("C09.select", text, f"part {p[1]}{p[2]}: the AHB-level result (fulfilled, format expression, format fulfilled, message) = {got_} "
                                                      f"differs from the result of its own condition expression {want_}"))
+    # validity is structural: a part is invalid iff the reference says so about its condition expression (a bare indicator never is)
+    for p_, r_ in zip(parts, own):
+        ref_invalid = p_[2] is not None and not refsem.valid(refsem.parse_condition(p_[2]))
+        if (r_.get("raise") == INVALID) != ref_invalid:
+            problems.append(("C09.select", text, f"part {p_[1]}{p_[2] or ''}: evaluation {'raises InvalidExpressionError' if not ref_invalid else 'gives ' + str(r_)} "
+                                                 f"but structurally the part is {'invalid' if ref_invalid else 'valid'}"))
+            return problems
     any_invalid = any(r.get("raise") == INVALID for r in own)
     fwd = evaluate(model, parts, rc, fc, order="fwd")
     rev = evaluate(model, parts, rc, fc, order="rev")
